@@ -251,7 +251,8 @@ class World(object):
         self.runner = ModelRunner(cfg, features=self.features, step_registry=reg)
         self.runner.context = Context(self.runner)
         if o.get("hooks"):
-            self.runner.hooks = self._make_hooks()
+            self._hooks_made = self._make_hooks()
+            self.runner.hooks = self._hooks_made
         if o.get("autoretry") or o.get("continue_after_failed_step"):
             self.bind_rows(build=True)
         if o.get("autoretry"):
@@ -354,6 +355,13 @@ class World(object):
             raise AssertionError("boom %s" % src)
         if o == OUT_EXC:
             self.events.append(("exception", sid, src))
+            kinds = self.opts.get("exc_kinds")
+            if kinds:
+                # "another exception": any class that is not an assertion / behave's own pending-step signal
+                kind = self.sx.choice("exc_kind", list(kinds))
+                kind = kind if isinstance(kind, str) else kind.concretize()
+                raise {"RuntimeError": RuntimeError, "NotImplementedError": NotImplementedError, "KeyError": KeyError,
+                       "SystemError": SystemError, "StopIteration": StopIteration}[kind]("exc %s" % src)
             raise RuntimeError("exc %s" % src)
         if o == OUT_PENDING:
             self.events.append(("pending", sid, src))
@@ -441,6 +449,8 @@ class World(object):
                 if w.opts.get("hook_probe"):
                     w.opts["hook_probe"](w, name, context, args)
                 for f in (fault, fault2):
+                    if w.phase == 2 and w.opts.get("fault_first_run_only"):
+                        break       # the second run of a two-run history is fault-free
                     if f is not None and f == k:
                         osid = str(owner).split("/")[0] if owner else None
                         w.fault_fired.append((k, name, arg, owner, w.attempt.get(osid, 1)))
@@ -471,8 +481,9 @@ class World(object):
         self.bind_rows(build=True)      # observation time: the loaded model includes every outline row
         return self.verdict
 
-    def second_run(self, reset=False):
-        """Run the *same* model objects again (fresh runner/context), with a second outcome vector.
+    def second_run(self, reset=False, same_runner=False):
+        """Run the *same* model objects again (fresh runner/context, or with same_runner the SAME runner object
+        and a fresh context), with a second outcome vector.
         reset=True applies behave's documented Feature.reset() first (reset_model)."""
         from behave.runner import ModelRunner, Context
         from behave.model import reset_model
@@ -483,7 +494,10 @@ class World(object):
         self.events = []
         self.hooklog = []
         self.fault_fired = []
-        self.runner = ModelRunner(self.config, features=self.features, step_registry=self.registry)
+        if not same_runner:
+            self.runner = ModelRunner(self.config, features=self.features, step_registry=self.registry)
+            if self.opts.get("hooks"):
+                self.runner.hooks = self._hooks_made
         self.runner.context = Context(self.runner)
         return self.run()
 
